@@ -140,3 +140,24 @@ Proof.
   - split; intros P; injection P as P1 P2; subst; reflexivity.
   - split; discriminate.
 Qed.
+
+(** ... and TLS extensions *)
+Theorem tls_extension_iff e ext t parts rest h out :
+  conv_u16 ext = Ok t ->
+  call e "tls::extension" [ext] (map VStr parts) h = Some (Ok (VStr out, h)) ->
+  (parse_extension (out ++ rest) = Some ((t, concat parts), rest) <-> len (concat parts) < 65536).
+Proof.
+  intros Ht. pose proof (conv_u16_lt _ _ Ht).
+  unfold call. change (exec e "tls::extension" None [ext] (map VStr parts) h)
+    with (Some (tls_extension_fn [ext] (map VStr parts) h)).
+  unfold tls_extension_fn. rewrite Ht, join_extra_strs. cbn [obind]. intros E. injection E as E. subst out.
+  assert (X : forall o, o = parse_extension (ext_bytes (t, concat parts) ++ rest) ->
+              (o = Some ((t, concat parts), rest) <-> len (concat parts) < 65536)).
+  { intros o ->. unfold parse_extension, ext_bytes. cbn [fst snd]. rewrite <- !app_assoc.
+    rewrite parse_be16_enc by assumption.
+    rewrite <- (parse_len_be16_wrap_iff (concat parts) rest).
+    destruct (parse_len_be16 (be16 (wrap16 (len (concat parts))) ++ concat parts ++ rest)) as [[f r]|].
+    - split; intros P; injection P as P1 P2; subst; reflexivity.
+    - split; discriminate. }
+  apply X. reflexivity.
+Qed.
